@@ -94,17 +94,26 @@ func (p *principalInstance) doIntentRequestChecks(i Intent) error {
 
 	if !p.targetConnected {
 		logrus.Info("principal: not connected to target")
+		// The denial of the approval callback is written where it happens. The
+		// target setup then fails because of it; that failure must not produce
+		// a second answer for the same request.
+		denied := false
+		var deniedErr error
 		checkIntentWithCert := func(cert *certs.Certificate) error {
 			p.targetCert = cert
 			err := p.checkIntent(i, cert)
 			if err != nil {
-				WriteIntentDenied(p.delegateConn, err.Error())
+				denied = true
+				deniedErr = WriteIntentDenied(p.delegateConn, err.Error())
 			}
 			return err
 		}
 		tc, err := p.setUpTargetConn(targURL, checkIntentWithCert)
 		if err != nil {
 			logrus.Info("principal: error setting up target connection")
+			if denied {
+				return deniedErr
+			}
 			return WriteIntentDenied(p.delegateConn, fmt.Sprintf("principal: target setup failed: %s", err))
 		}
 		p.targetConn = tc
